@@ -200,7 +200,8 @@ PROPS = {
     ),
     "C15": dict(
         domain="saveload", module="Props.C15",
-        theorems=["C15_history_invariant", "C15_invariant_empty", "C15_invariant_meaning", "C15_ids_unique",
+        theorems=["C15_history_invariant", "C15_batch_deletion_in_statement_order",
+                  "C15_batch_deletion_keeps_invariant", "C15_invariant_empty", "C15_invariant_meaning", "C15_ids_unique",
                   "C15_mapping_agrees", "C15_counter_above", "C15_mark_existing", "C15_mark_fresh", "C15_load_merges",
                   "C15_load_components", "C15_load_removes_absent", "C15_load_untouched", "C15_repeated_load",
                   "C15_stale_not_trusted", "C15_alloc_maintain_exact", "C15_nonfresh_id_refuted",
